@@ -487,7 +487,7 @@ def _error_pushes(F, b):
     for i, t in b.calls():
         if parse_callee(t["callee"])[2] == "push" and "Vec" in t["callee"]:
             r = root_of_operand(b, t["args"][0])
-            if r and "errors" in r[1]:
+            if (r and "errors" in r[1]) or "ValidationError>" in ((t.get("aty") or [""])[0]):
                 yield i, t
 
 
@@ -552,26 +552,16 @@ def validator_table(F, rep):
            "validator's match on Operation has a wildcard/default arm or fewer than 7 arms: a variant can be skipped silently",
            v.loc(), key="R5:validate:exhaustive")
     got = {}
-    # direct pushes in validate
-    for i, t in _error_pushes(F, v):
-        for subj, classes in _guards(v, tb, i):
-            vf = _variant_field(subj)
-            if vf and vf[1]:
-                got.setdefault(vf, set()).update(classes)
-    # helper(s): functions called from validate that push errors; map their struct-field guards through the call site
-    for i, t in v.calls():
-        h = F.bodies.get(t["callee"])
-        if h is None or not list(_error_pushes(F, h)):
-            continue
-        hb = Terms(F, h, inline_depth=0)
-        # argument terms at this call site
-        args = [tb.operand(a) for a in t["args"]]
-        for pi, pt in _error_pushes(F, h):
-            for subj, classes in _guards(h, hb, pi):
-                # subj is rooted at a parameter of the helper: substitute the caller's argument
-                from mir import subst
-                s2 = subst(subj, args)
-                vf = _variant_field(s2)
+    # error pushes in validate and in the helpers it delegates to (any depth ≤ 2), each helper seen once per call site with
+    # its parameters replaced by the caller's arguments, so a guard on `qty` inside `check_quantity(.., *amount)` is a guard
+    # on `(tx.operation as Buy).amount`
+    from rules.c08 import _R
+    rg = _R(F).region(v, depth=2)
+    for ex in rg.expansions:
+        hb, ht, conv = ex["body"], ex["tb"], ex["conv"]
+        for pi, pt in _error_pushes(F, hb):
+            for subj, classes in _guards(hb, ht, pi):
+                vf = _variant_field(conv(subj))
                 if vf and vf[1]:
                     got.setdefault(vf, set()).update(classes)
     rep.count("validator_table_entries", len(got))
